@@ -203,3 +203,16 @@ Fixpoint elf_collect (fuel : nat) (p : profile) (m : mem) (it : elf_iter) : list
       | Fault x => ([], Fault x)
       end
   end.
+
+(* ---- provided Iterator methods (nth, count): the trait defaults are iterated next() calls; nth(k) stops at the
+   first None, a panic propagates ------------------------------------------------------------------------- *)
+Fixpoint efi_nth (p : profile) (m : mem) (it : efi_iter) (k : nat) : res (option N * efi_iter) :=
+  match efi_next p m it with
+  | Val (Some x, it') => match k with O => Val (Some x, it') | S k' => efi_nth p m it' k' end
+  | r => r
+  end.
+Fixpoint elf_nth (p : profile) (m : mem) (it : elf_iter) (k : nat) : res (option elf_section * elf_iter) :=
+  match elf_next (elf_fuel it) p m it with
+  | Val (Some x, it') => match k with O => Val (Some x, it') | S k' => elf_nth p m it' k' end
+  | r => r
+  end.
